@@ -6,13 +6,14 @@
    [the family CorePhase2K1Base, K1Fd, K1Act, K1Inv, K1Loop, K1Wait, K1Poll, CorePhase2K1],
    CorePhase2AcctK, CorePhase2AcctCrash, CorePhase2AcctOwn, CorePhase2AcctOwnAct, CorePhase2AcctOwnLoop,
    CorePhase2AcctOwnWait, CorePhase2AcctOwnTop, [CorePhase2Fd family of p2-fd], CorePhase2AcctNc, CorePhase2AcctNcLoop,
-   CorePhase2AcctNcWait, CorePhase2AcctNcTop, CorePhase2Acct. *)
+   CorePhase2AcctNcWait, CorePhase2AcctNcTop, CorePhase2AcctIdle, CorePhase2AcctIdleLoop, CorePhase2AcctIdleWait,
+   CorePhase2AcctIdleTv, CorePhase2AcctIdleTop, CorePhase2Acct. *)
 From Coq Require Import List ZArith Bool Lia.
 From Ivv Require Import Core.Kernel Core.CoreTypes Core.CoreFd Core.CoreModel Core.Monitors Core.GuardMon Core.CoreSpec
   Core.CoreRel.
 From Ivv Require Export Core.CorePhase2AcctTr Core.CorePhase2AcctTr2 Core.CorePhase2AcctMon Core.CorePhase2AcctMon2
   Core.CorePhase2AcctFd Core.CorePhase2AcctAct Core.CorePhase2AcctLoop Core.CorePhase2AcctTear Core.CorePhase2AcctEnd
-  Core.CorePhase2AcctEv Core.CorePhase2AcctEvLoop Core.CorePhase2AcctWait Core.CorePhase2AcctK Core.CorePhase2AcctCrash Core.CorePhase2AcctOwnTop Core.CorePhase2AcctNcTop.
+  Core.CorePhase2AcctEv Core.CorePhase2AcctEvLoop Core.CorePhase2AcctWait Core.CorePhase2AcctK Core.CorePhase2AcctCrash Core.CorePhase2AcctOwnTop Core.CorePhase2AcctNcTop Core.CorePhase2AcctIdleTop.
 Import ListNotations.
 Local Open Scope Z_scope.
 
@@ -42,6 +43,7 @@ Check core_code_705.  Check core_code_708.  Check core_code_710.   (* CorePhase2
 Check core_code_1801. Check core_code_1804.                        (* CorePhase2AcctCrash.v *)
 Check core_code_1802.                                              (* CorePhase2AcctOwnTop.v *)
 Check core_code_707.                                               (* CorePhase2AcctNcTop.v *)
+Check core_gmon_1103.                                              (* CorePhase2AcctIdleTop.v *)
 Check core_mon_C18.
 Print Assumptions core_code_701.
 Print Assumptions core_code_702.
@@ -53,4 +55,5 @@ Print Assumptions core_code_1801.
 Print Assumptions core_code_1804.
 Print Assumptions core_code_1802.
 Print Assumptions core_code_707.
+Print Assumptions core_gmon_1103.
 Print Assumptions core_mon_C18.
